@@ -119,4 +119,11 @@ def scenarios(tier, rng):
         if bits > 0:
             for run in runs(bits, rng, quick):
                 sc.append({"g": "float", "op": "to_f", "bits": bits, "xs": [tobytes(x) for x in run]})
+    # Uint -> float far beyond the compiled widths (bit lengths above 2^16: the binary exponent no longer fits 16 bits)
+    for bits in (65700, 70000):
+        mx = (1 << bits) - 1
+        run = sorted({0, 1, (1 << 24) + 1, 1 << 200, (1 << 1024) - 1, 1 << 65535, (1 << 65536) - 1, 1 << 65536, (1 << 65536) + 1,
+                      1 << 65599, 1 << 65600, (1 << 65663) + 12345, 1 << (bits - 1), mx - 1, mx})
+        sc.append({"g": "float", "op": "to_f", "bits": bits, "xs": [tobytes(x) for x in run]})
+        sc.append({"g": "float", "op": "to_f", "bits": bits, "xs": [tobytes(x) for x in sorted({(1 << 65536 + k) - 1 for k in range(0, 130, 13)})]})
     return {"ux_conv": sc}
